@@ -571,7 +571,13 @@ static void run_case(long id, uint64_t seed)
 	if (count_fds() != fds0)
 		mon_viol("C18", "fd-leak", "popen", "%d descriptors open after the case, %d before", count_fds(), fds0);
 	S.cases++;
-	mon_printf("CASE id=%ld trace=%016llx nt=%d requests=%d viol=%d\n", id, (unsigned long long)hash_step(cs, S.terms_sent * 131 + S.kills_sent), 1, nprs, mon_viol_case);
+	{
+		/* non-trivial: at least one signal had to be sent to a child (the request was closed while the child was alive) */
+		int k, sig = 0;
+		for (k = 0; k < nprs; k++)
+			sig += prs[k].nkills;
+		mon_printf("CASE id=%ld trace=%016llx nt=%d requests=%d signals=%d viol=%d\n", id, (unsigned long long)hash_step(cs, S.terms_sent * 131 + S.kills_sent), sig > 0, nprs, sig, mon_viol_case);
+	}
 	if (id % 23 == 0 && nprs > 0)
 		mon_printf("SAMPLE case=%ld method=%s requests=%d first: type=%s behaviour=%d close_mode=%d bytes=%ld signals_sent=%d acks=%d reaped=%d\n", id, g_method, nprs,
 			   prs[0].type_r ? "r" : "w", prs[0].beh, prs[0].close_mode, prs[0].nbytes, prs[0].nkills, prs[0].acks, (int)prs[0].dead_reaped);
